@@ -558,6 +558,22 @@ pub fn oracle(tier: &str, seed: u64) -> (u64, Vec<Finding>) {
                 let got = prod(&ap); tried += 1;
                 if (got.ln() - lref).abs() > (nn + 4.0) * u * (1.0 + ap.iter().map(|x| x.ln().abs()).sum::<f64>()) { out.push(Finding { class: "prod:beyond-rounding-bound".into(), what: format!("ln(prod) = {:e}, sum of ln = {:e}", got.ln(), lref), input: format!("a={}", json_floats(&ap)) }); }
             }
+            // reductions on data with infinities / overflowing prefixes: the IEEE result of adding (multiplying) the elements one after the other
+            // (an infinite partial sum stays infinite; inf + (-inf) and 0 * inf are NaN) -- compared as classes: +inf / -inf / NaN / finite
+            if n >= 2 && it % 4 == 0 {
+                let mut sp = ar.clone();
+                let k = r.below(n as u64) as usize;
+                match r.below(4) { 0 => sp[k] = f64::INFINITY, 1 => sp[k] = f64::NEG_INFINITY, 2 => { sp[0] = 1.5e308; sp[n - 1] = 1.0e308; if n > 2 { sp[1] = 1.2e308; } } _ => { sp[k] = f64::INFINITY; sp[(k + 1) % n] = f64::NEG_INFINITY; } }
+                let class_of = |x: f64| if x.is_nan() { 0 } else if x == f64::INFINITY { 1 } else if x == f64::NEG_INFINITY { 2 } else { 3 };
+                let naive_sum = sp.iter().fold(0.0f64, |a, b| a + b);
+                let inp = format!("x={}", json_floats(&sp)); crumb(&inp); tried += 2;
+                let got = sum(&sp);
+                // every association of the additions gives the same class here unless both infinities (or an overflow of either sign) can meet
+                let ambiguous = sp.iter().any(|x| x.is_nan()) || (sp.iter().any(|x| *x > 1e307) && sp.iter().any(|x| *x < -1e307));
+                if !ambiguous && class_of(got) != class_of(naive_sum) { out.push(Finding { class: "sum:special-values".into(), what: format!("sum = {:e}, adding the elements one after the other gives {:e}", got, naive_sum), input: inp.clone() }); }
+                let got = catch(|| Vector::new(sp.clone()).sum());
+                if let Ok(g) = got { if !ambiguous && class_of(g) != class_of(naive_sum) { out.push(Finding { class: "Vector::sum:special-values".into(), what: format!("Vector::sum = {:e}, adding the elements one after the other gives {:e}", g, naive_sum), input: inp.clone() }); } }
+            }
             if n >= 1 {
                 // log-sum-exp, including large-magnitude inputs (the naive formula would overflow / underflow)
                 let shift = *r.pick(&[0.0, 0.0, 700.0, -700.0, 1e4, -1e6, 1e300, -1e300]);
